@@ -112,6 +112,9 @@ def replay_of(r, qi, msg=None):
         d["query"] = r["q"][qi]
     if msg:
         d["monitor"] = msg
+    if r.get("pre"):
+        d["pre"] = r["pre"]
+        d["q1"] = [{k: v for k, v in q.items() if k in ("t", "ec", "ai", "ahex", "tc", "sq", "seqs")} for q in r.get("q1", [])]
     return d
 
 
